@@ -37,6 +37,14 @@ ASSUMPTIONS = [
     'symlinks that already exist on disk and the kernel resolution of them are outside a path contract; '
     'os.path.realpath / os.path.relpath are uninterpreted functions of their arguments (file system state fixed '
     'during one request)',
+    'SFTPServer.symlink: os.path.relpath(p, start=d) is assumed LEXICALLY correct (join(d, relpath(p, d)) names the '
+    'same file as p).  That fails when a component of the link directory is itself a symbolic link that leads '
+    'upward: the rewritten relative target is computed textually and can then resolve outside the root - this is '
+    'the "symlinks already on disk" case, outside the contract',
+    'SFTPServer.symlink is verified for a server with a root configured (requires chroot set); the location a '
+    'relative target is resolved against is the link path without its final component; the algebra relating '
+    'map_path(dirname(normpath(p))) to the directory part of map_path(p) is an assumed property of the posixpath '
+    'externals (bounded exhaustive check, extra_checks) and the string lemma built on it is proved by SMT',
     'a hostile server that first sends a symlink entry and then a directory of the same name is not covered (needs '
     'file-system state)',
     'the file-system objects handed to _copy / _begin_copy are LocalFS or SFTPClient (the two implementations of '
@@ -289,14 +297,16 @@ def symlink_lemmas(c):
     client's newpath, basename of the created link path; and the instance of the string lemma above"""
     evs = c.events('os.symlink')
     newpath = c.arg('newpath')
-    out = [P.maprel_algebra(newpath)]
-    # map_path's proved clause `root-joined-with-normalised-path` for every call made on this path (callee contract)
-    out += [mapped_as(c, q['args'][0].z, q['ret'].z) for q in c.calls('self.map_path')]
+    out = []
     if len(evs) == 1:
         link = evs[0][1][1].z
-        out.append(P.basename_contract(Z, link, P.pp_basename(link)))
         maps = c.calls('self.map_path')
         if len(maps) == 3 and c.raised is None:
+            # (only the relative-target paths need any of this)
+            out.append(P.maprel_algebra(newpath))
+            out.append(P.basename_contract(Z, link, P.pp_basename(link)))
+            # map_path's proved clause `root-joined-with-normalised-path` for the directory and the link (callee contract)
+            out += [mapped_as(c, q['args'][0].z, q['ret'].z) for q in maps[1:]]
             m = P.pp_maprel(newpath)
             d = P.pp_maprel(P.pp_dirname(P.pp_normpath(newpath)))
             hyp, concl = link_location_lemma(chroot(c), m, d, P.pp_basename(m), link, P.pp_basename(link),
@@ -321,6 +331,7 @@ symlink = Spec(
                          'assumed algebra of the externals: maprel(dirname(normpath(p))) is the directory part of '
                          'maprel(p) (bounded check in extra_checks)'])
 symlink.no_replay = True
+symlink.normpath_plain = True      # normpath(newpath) is only handed to dirname: no per-shape paths needed
 
 
 # ----------------------------------------------------------------------------------------------- scp.py sink
